@@ -169,7 +169,7 @@ Definition search_nocache (q : quirks) (s : mserver) (r : mreq) : mout := fst (s
 
 (** filters of the host-matching rules among the first [n] rules *)
 Fixpoint visited_allow (q : quirks) (ip : option addr) (rs : list (mrule * (bool * list pbits)))
-         (n : nat) : bool :=
+         (n : nat) {struct n} : bool :=
   match n, rs with
   | O, _ => true
   | _, [] => true
